@@ -24,6 +24,27 @@ pub enum EpochOp {
     DeleteDV(DeleteDVEntry),
 }
 
+/// Verification hook: compact one-line summary of a changeset (see /verif).
+#[cfg(risinglight_verif)]
+pub fn verif_ops_summary(ops: &[EpochOp]) -> String {
+    let mut v = vec![];
+    for op in ops {
+        v.push(match op {
+            EpochOp::CreateTable(e) => format!("create:{}", e.table_name),
+            EpochOp::DropTable(e) => format!("drop:{}", e.table_id.table_id),
+            EpochOp::AddRowSet((e, _)) => format!("add:{}:{}", e.table_id.table_id, e.rowset_id),
+            EpochOp::DeleteRowSet(e) => format!("del:{}:{}", e.table_id.table_id, e.rowset_id),
+            EpochOp::AddDV((e, _)) => {
+                format!("adddv:{}:{}:{}", e.table_id.table_id, e.rowset_id, e.dv_id)
+            }
+            EpochOp::DeleteDV(e) => {
+                format!("deldv:{}:{}:{}", e.table_id.table_id, e.rowset_id, e.dv_id)
+            }
+        });
+    }
+    v.join(",")
+}
+
 impl std::fmt::Debug for EpochOp {
     fn fmt(&self, f: &mut std::fmt::Formatter<'_>) -> std::fmt::Result {
         match self {
@@ -213,6 +234,8 @@ impl VersionManager {
 
     /// Commit changes and return a new epoch number
     pub async fn commit_changes(&self, ops: Vec<EpochOp>) -> StorageResult<u64> {
+        #[cfg(risinglight_verif)]
+        crate::verif::point("vm.commit.begin", &verif_ops_summary(&ops)).await;
         // Hold the manifest lock so that no one else could commit changes.
         let mut manifest = self.manifest.lock().await;
 
@@ -292,8 +315,14 @@ impl VersionManager {
             }
         }
 
+        #[cfg(risinglight_verif)]
+        crate::verif::point("vm.commitA", &current_epoch.to_string()).await;
+
         // Persist the change onto the disk.
         manifest.append(&entries).await?;
+
+        #[cfg(risinglight_verif)]
+        crate::verif::point("vm.append", &entries.len().to_string()).await;
 
         // Add epoch number and make the modified snapshot available.
         let mut inner = self.inner.lock();
@@ -312,6 +341,9 @@ impl VersionManager {
     pub fn pin(&self) -> Arc<Version> {
         let mut inner = self.inner.lock();
         let epoch = inner.epoch;
+        // (observation only; called under the inner lock: a hook must not call back into here)
+        #[cfg(risinglight_verif)]
+        crate::verif::point_sync("vm.pin", &epoch.to_string());
         *inner.ref_cnt.entry(epoch).or_default() += 1;
         Arc::new(Version {
             epoch,
@@ -368,6 +400,17 @@ impl VersionManager {
     pub async fn do_vacuum(self: &Arc<Self>) -> StorageResult<()> {
         let deletions = self.find_vacuum().await?;
 
+        #[cfg(risinglight_verif)]
+        crate::verif::point(
+            "vac.find",
+            &deletions
+                .iter()
+                .map(|(t, r)| format!("{t}_{r}"))
+                .collect::<Vec<_>>()
+                .join(","),
+        )
+        .await;
+
         for (table_id, rowset_id) in deletions {
             let path = self
                 .storage_options
@@ -377,9 +420,129 @@ impl VersionManager {
             if !self.storage_options.disable_all_disk_operation {
                 tokio::fs::remove_dir_all(path).await?;
             }
+            #[cfg(risinglight_verif)]
+            crate::verif::point("vac.unlinked", &format!("{table_id}_{rowset_id}")).await;
         }
 
         Ok(())
+    }
+
+    /// Verification hook: canonical one-line dump of the in-memory version state.
+    /// `epoch=E;pins=e:n,..;snap=t:r+r,..;dvs=t:r:d+d,..;pending=e:t_r+t_r,..;pool=t_r,..;nstatus=N`
+    #[cfg(risinglight_verif)]
+    pub fn verif_state(&self) -> String {
+        let inner = self.inner.lock();
+        let mut pins: Vec<_> = inner.ref_cnt.iter().map(|(e, n)| (*e, *n)).collect();
+        pins.sort();
+        let (rowsets, dvs) = Self::verif_snapshot_of(inner.status.get(&inner.epoch));
+        let mut by_table: std::collections::BTreeMap<u32, Vec<u32>> = Default::default();
+        for (t, r) in rowsets {
+            by_table.entry(t).or_default().push(r);
+        }
+        let mut dv_by: std::collections::BTreeMap<(u32, u32), Vec<u64>> = Default::default();
+        for (t, r, d) in dvs {
+            dv_by.entry((t, r)).or_default().push(d);
+        }
+        let mut pending: Vec<_> = inner
+            .rowset_deletion_to_apply
+            .iter()
+            .map(|(e, v)| {
+                let mut v = v.clone();
+                v.sort();
+                (*e, v)
+            })
+            .collect();
+        pending.sort();
+        let mut pool: Vec<_> = inner.rowsets.keys().cloned().collect();
+        pool.sort();
+        fn join<T: ToString>(v: &[T], sep: &str) -> String {
+            v.iter().map(|x| x.to_string()).collect::<Vec<_>>().join(sep)
+        }
+        format!(
+            "epoch={};pins={};snap={};dvs={};pending={};pool={};nstatus={}",
+            inner.epoch,
+            join(&pins.iter().map(|(e, n)| format!("{e}:{n}")).collect::<Vec<_>>(), ","),
+            join(
+                &by_table
+                    .iter()
+                    .map(|(t, rs)| format!("{t}:{}", join(rs, "+")))
+                    .collect::<Vec<_>>(),
+                ","
+            ),
+            join(
+                &dv_by
+                    .iter()
+                    .map(|((t, r), ds)| format!("{t}:{r}:{}", join(ds, "+")))
+                    .collect::<Vec<_>>(),
+                ","
+            ),
+            join(
+                &pending
+                    .iter()
+                    .map(|(e, v)| format!(
+                        "{e}:{}",
+                        join(&v.iter().map(|(t, r)| format!("{t}_{r}")).collect::<Vec<_>>(), "+")
+                    ))
+                    .collect::<Vec<_>>(),
+                ","
+            ),
+            join(&pool.iter().map(|(t, r)| format!("{t}_{r}")).collect::<Vec<_>>(), ","),
+            inner.status.len(),
+        )
+    }
+
+    #[cfg(risinglight_verif)]
+    fn verif_snapshot_of(s: Option<&Arc<Snapshot>>) -> (Vec<(u32, u32)>, Vec<(u32, u32, u64)>) {
+        let mut rowsets = vec![];
+        let mut dvs = vec![];
+        if let Some(s) = s {
+            for (t, rs) in &s.rowsets {
+                for r in rs {
+                    rowsets.push((*t, *r));
+                }
+            }
+            for (t, m) in &s.dvs {
+                for (r, ds) in m {
+                    for d in ds {
+                        dvs.push((*t, *r, *d));
+                    }
+                }
+            }
+        }
+        rowsets.sort();
+        dvs.sort();
+        (rowsets, dvs)
+    }
+
+    /// Verification hook: (current epoch, sorted (table, rowset) pairs, sorted (table, rowset,
+    /// dv) triples) of the snapshot of `epoch` (`None` = current epoch). DVs whose row-set is no
+    /// longer in the snapshot are included.
+    #[cfg(risinglight_verif)]
+    #[allow(clippy::type_complexity)]
+    pub fn verif_snapshot(
+        &self,
+        epoch: Option<u64>,
+    ) -> (u64, Vec<(u32, u32)>, Vec<(u32, u32, u64)>) {
+        let inner = self.inner.lock();
+        let e = epoch.unwrap_or(inner.epoch);
+        let (r, d) = Self::verif_snapshot_of(inner.status.get(&e));
+        (inner.epoch, r, d)
+    }
+
+    /// Verification hook: pinned epochs with their reference counts, sorted.
+    #[cfg(risinglight_verif)]
+    pub fn verif_pins(&self) -> Vec<(u64, usize)> {
+        let inner = self.inner.lock();
+        let mut pins: Vec<_> = inner.ref_cnt.iter().map(|(e, n)| (*e, *n)).collect();
+        pins.sort();
+        pins
+    }
+
+    /// Verification hook: deleted row ids recorded in a delete vector of the pool.
+    #[cfg(risinglight_verif)]
+    pub fn verif_dv_rows(&self, table_id: u32, dv_id: u64) -> Option<Vec<u32>> {
+        let inner = self.inner.lock();
+        inner.dvs.get(&(table_id, dv_id)).map(|dv| dv.verif_deletes())
     }
 
     pub async fn run(
@@ -407,6 +570,8 @@ pub struct Version {
 impl Drop for Version {
     /// Unpin a snapshot of one epoch. When reference counter becomes 0, files might be vacuumed.
     fn drop(&mut self) {
+        #[cfg(risinglight_verif)]
+        crate::verif::point_sync("vm.unpin", &self.epoch.to_string());
         let mut inner = self.inner.lock();
         let ref_cnt = inner
             .ref_cnt
